@@ -14,7 +14,8 @@ from vlib.api import Custom, HarnessError, Outcome, innermost_site
 ID = "C20"
 LEVEL = "fault_enumeration"
 RULE = ("case = (call kind, input, fault point). Call kinds: read(str path), read(pathlib.Path), write(path), "
-        "to_csv(path), write/to_csv(path given as bytes), write(file object), to_csv(file object). Inputs: LAS files rendered from a FileSpec family "
+        "to_csv(path), write/to_csv(path given as bytes), write(file object), to_csv(file object) (text streams with every fault "
+        "point; BINARY streams of the caller's - BytesIO, open(wb), unbuffered - tracked without proxy, no faults). Inputs: LAS files rendered from a FileSpec family "
         "(curves x rows x wrapped x UTF-8 BOM x non-ASCII content x autodetect_encoding True/False/'chardet' x "
         "explicit encoding, normal/numpy engine, ~Other section, hyphen data, text column) plus seeded variations, and "
         "the failing classes: no '~' section, 'LASF' magic, junk header line, ragged data rows, undecodable bytes with "
@@ -230,9 +231,16 @@ def prepare(case, d):
         target = os.fsencode(pr.outpath) if "bytes" in call else pr.outpath
         pr.invoke = lambda tr: meth(target, **kw)
         return pr
-    if case.get("sink", "file") == "file":
+    sink = case.get("sink", "file")
+    if sink == "file":
         pr.outpath = os.path.join(d, "out.txt")
         pr.caller_real = open(pr.outpath, "w")
+    elif sink in ("binfile", "rawfile"):
+        # a stream of the caller's that cannot take text: whatever lasio makes of it, it is the caller's and stays open
+        pr.outpath = os.path.join(d, "out.bin")
+        pr.caller_real = open(pr.outpath, "wb") if sink == "binfile" else open(pr.outpath, "wb", buffering=0)
+    elif sink == "bytesio":
+        pr.caller_real = io.BytesIO()
     else:
         pr.caller_real = io.StringIO()
 
@@ -250,7 +258,7 @@ def result_signature(pr, exc, d):
         return ("raised", type(exc).__name__, str(exc).replace(d, "<tmp>")[:300])
     if pr.is_read:
         return ("read", canon.from_las(pr.las), pr.las.encoding)
-    if isinstance(pr.caller_real, io.StringIO):
+    if isinstance(pr.caller_real, (io.StringIO, io.BytesIO)):
         if pr.caller_real.closed:  # a violation reported by the oracle; the content is gone with it
             return ("written", "<caller's StringIO closed>")
         return ("written", pr.caller_real.getvalue())
@@ -497,6 +505,13 @@ def read_pairs(tier, seed):
             pairs.append(mk(call, dict(small, nonascii=na), dict(encoding="no-such-codec"), "unknown-codec"))
             pairs.append(mk(call, dict(small, nonascii=na, bom=1), dict(encoding="no-such-codec"), "unknown-codec-bom"))
             pairs.append(mk(call, dict(small, nonascii=na), dict(encoding="no-such-codec", autodetect_encoding=False), "unknown-codec-noauto"))
+        # an error handler Python does not know: open() accepts the name and only looks it up at the first undecodable byte
+        for na, enc in ((0, "utf-8"), (1, "utf-8"), (1, "latin-1")):
+            for extra_kw, t2 in ((dict(), ""), (dict(encoding="utf-8"), "-utf8"), (dict(autodetect_encoding=False), "-noauto"),
+                                 (dict(encoding="ascii"), "-ascii")):
+                pairs.append(mk(call, dict(small, nonascii=na, enc=enc), dict(encoding_errors="no-such-handler", **extra_kw),
+                                "unknown-error-handler" + t2))
+        pairs.append(mk(call, small, dict(encoding_errors=None), "error-handler-None"))
         pairs.append(mk(call, small, dict(null_policy="no-such-policy"), "unknown-null-policy"))
         pairs.append(mk(call, small, dict(engine="no-such-engine"), "unknown-engine"))
         pairs.append(mk(call, dict(name="ragged", wrap="YES", curves=4), dict(), "wrapped"))
@@ -668,6 +683,33 @@ def part_csv(ctx):
     enumerate_pairs(ctx, pairs + [dict(p, call="to_csv_bytes_path") for p in pairs[::4]])
 
 
+def part_binary_sinks(ctx):
+    """write()/to_csv() to a BINARY stream of the caller's (BytesIO, open(..., 'wb'), unbuffered): tracked without the
+    proxy (a proxy would hide the stream's type from lasio), so no faults are injected here; the verdict is the same -
+    the caller's object is open after the call, returned or raised, and nothing lasio opened is left open."""
+    pairs = []
+    for call, kws in (("write_fileobj", WRITE_KW), ("to_csv_fileobj", CSV_KW)):
+        for sink in ("bytesio", "binfile", "rawfile"):
+            for kw, tag in kws:
+                for shape in (dict(curves=1, rows=1), dict(curves=3, rows=4), dict(curves=3, rows=4, textcol=1)):
+                    pairs.append(mk(call, dict(name="gen", wrap="NO", **shape), kw, tag, sink))
+    for i, pair in enumerate(pairs):
+        if i % ctx.nshards != ctx.shard:
+            continue
+        case = dict(pair, k=None)
+        out, info = evaluate(case, mode="track")
+        out.cls("binary-sink|" + pair["call"] + "|" + pair["sink"])
+        out.nontrivial = True
+        ctx.record(case, out, distinct=True)
+        for then in ("write", "to_csv"):
+            case2 = dict(case, then=then)
+            out, info = evaluate(case2, mode="track")
+            out.cls("binary-sink|histories")
+            out.nontrivial = True
+            ctx.record(case2, out, distinct=True)
+    ctx.exhaustive = True
+
+
 def part_fileobj(ctx):
     enumerate_pairs(ctx, write_pairs(ctx.tier, ctx.seed + 2, "write_fileobj", ("file", "stringio"))
                     + csv_pairs(ctx.tier, ctx.seed + 2, "to_csv_fileobj", ("file", "stringio")))
@@ -684,6 +726,7 @@ def parts(tier):
         Custom("write(path) x objects x every fault point", part_write, max_shards=16, budget_s=b(10, 100)),
         Custom("to_csv(path) x objects x every fault point", part_csv, max_shards=16, budget_s=b(10, 100)),
         Custom("write/to_csv(caller file object) x every fault point", part_fileobj, max_shards=16, budget_s=b(20, 160)),
+        Custom("write/to_csv(caller BINARY stream), tracked without proxy", part_binary_sinks, max_shards=4, budget_s=b(20, 60)),
     ]
 
 
